@@ -79,7 +79,15 @@ fn gdt_dispatch(mode: u64, max: u64, l: &[u64]) -> Vec<i128> {
         1 => gdt_run::<1>(mode, l),
         2 => gdt_run::<2>(mode, l),
         3 => gdt_run::<3>(mode, l),
-        8 => gdt_run::<8>(mode, l),
+        8 => {
+            // the default capacity has two more constructors (new, Default): each must give the table `empty` gives
+            let e = GlobalDescriptorTable::<8>::empty();
+            let same = |g: &GlobalDescriptorTable<8>| g.entries().iter().map(|x| x.raw()).collect::<Vec<u64>>() == e.entries().iter().map(|x| x.raw()).collect::<Vec<u64>>() && g.limit() == e.limit();
+            if !same(&GlobalDescriptorTable::new()) || !same(&GlobalDescriptorTable::default()) {
+                return vec![-77];
+            }
+            gdt_run::<8>(mode, l)
+        }
         9 => gdt_run::<9>(mode, l),
         8192 => gdt_run::<8192>(mode, l),
         8193 => gdt_run::<8193>(mode, l),
